@@ -5,12 +5,12 @@ CONSTANTS
   OutKinds = {1, 2}
   FlowKinds = {3}
   MaxOps = 2
-  Thin = 96
+  Thin = 200
   ThinRes = 0
   FullDepth = 1
   SeedThin = 1
   SeedThinFrom = 9
-  SampleMod = 24
+  SampleMod = 48
   SampleRes = 0
 INIT Init
 NEXT Next
